@@ -16,8 +16,8 @@ ops
 * `full`      `{kind,value,bytes,tail,prefixes}`     → `{enc,encPanics,dec,pref}`: encode the value,
               decode `bytes ++ tail`, decode each listed proper prefix of `bytes`
 * `buffered`  `{bytes}`                              → `{buffered}`
-* `valuefile` `{a,b}`                                → `{name,parsed,fixed}`
-* `valueparse` `{name}`                              → `{parsed,fixed}`
+* `valuefile` `{a,b}`                                → `{name,parsed,signed}` (`signed` = pre-fix reader)
+* `valueparse` `{name}`                              → `{parsed,signed}`
 
 kinds: entry req timeoutNowReq identityReq voteReq appendReq installSnapReq resp (and
 identityResp voteResp installSnapResp timeoutNowResp) appendResp node config snapshotMeta
@@ -397,10 +397,10 @@ def run (j : Json) : Except String Json := do
     let b ← fU64 j "b"
     let name := formatValue a b
     pure (Json.mkObj [("name", Json.str name), ("parsed", jValRes (parseValue name)),
-      ("fixed", jValRes (parseValueFixed name))])
+      ("signed", jValRes (parseValueSigned name))])
   | "valueparse" =>
     let name ← (← fld j "name").getStr?
-    pure (Json.mkObj [("parsed", jValRes (parseValue name)), ("fixed", jValRes (parseValueFixed name))])
+    pure (Json.mkObj [("parsed", jValRes (parseValue name)), ("signed", jValRes (parseValueSigned name))])
   | o => throw s!"unknown op {o}"
 
 /-- one case in, one answer out. -/
